@@ -75,6 +75,9 @@ func nondetSource(callee *ssa.Function) string {
 	pkg := callee.Pkg.Pkg.Path()
 	name := callee.Name()
 	isMethod := callee.Signature.Recv() != nil
+	if name == "init" || strings.HasPrefix(name, "init#") {
+		return "" // a dependency's package initialiser, called from ours
+	}
 	switch pkg {
 	case "math/rand", "math/rand/v2":
 		if !isMethod && name != "New" && name != "NewSource" && name != "NewZipf" && name != "NewPCG" && name != "NewChaCha8" {
@@ -82,6 +85,9 @@ func nondetSource(callee *ssa.Function) string {
 		}
 	case "crypto/rand":
 		return "crypto/rand." + name
+	case "hash/maphash":
+		// seeds made by MakeSeed (and the implicit seed of a Hash that was given none) are random per process by design
+		return "hash/maphash." + name + " (per-process random seed)"
 	case "time":
 		switch name {
 		case "Now", "Since", "Until":
@@ -125,6 +131,23 @@ func checkC09(c *Ctx) {
 	var fns []*ssa.Function
 	for f := range reach {
 		fns = append(fns, f)
+	}
+	// package initialisers run before any API call: a package-level `var seed = maphash.MakeSeed()` is as reachable as it gets
+	for _, p := range w.Pkgs {
+		if strings.HasSuffix(p.PkgPath, "/internal/testutils") {
+			continue
+		}
+		if sp := w.SSA().Package(p.Types); sp != nil {
+			if initFn := sp.Func("init"); initFn != nil && !reach[initFn] {
+				fns = append(fns, initFn)
+				for g := range w.reachModule(initFn) {
+					if !reach[g] {
+						reach[g] = true
+						fns = append(fns, g)
+					}
+				}
+			}
+		}
 	}
 	sort.Slice(fns, func(i, j int) bool { return fns[i].String() < fns[j].String() })
 	nSrc := 0
